@@ -5,7 +5,7 @@ F : argmax pixel / total / shape for both methods and beam types, vectorised kde
 """
 from __future__ import annotations
 
-from screen_corr import run_screen_correspondence
+from screen_corr import run_hist_correspondence, run_screen_correspondence
 try:
     from fals import C20 as F
 except ImportError:  # falsifier module not present
@@ -22,6 +22,7 @@ META = {
 
 def run(ctx) -> None:
     run_screen_correspondence(ctx, "C20", ctx.n(120, 3000))
+    run_hist_correspondence(ctx, "C20", ctx.n(60, 1500))
     if F is not None:
         F.run(ctx)
 
